@@ -49,7 +49,46 @@ pub fn scenarios(thorough: bool) -> Vec<Scenario> {
     v
 }
 
+/// Balanced transactions whose fee (or an output) exceeds the maximum coin value 2^120: they need inputs worth more than 2^120,
+/// which only a faucet can provide.
+fn over_limit_values(run: &Run) {
+    use crate::stf::*;
+    use crate::world::*;
+    use melstructs::{Denom, TxKind};
+    let big: u128 = 1 << 120;
+    let (_w, rootn) = root(NetID::Custom02, 0, false);
+    let eng = Engine::new(run);
+    let fund = tx_t(TxKind::Faucet, vec![], vec![out_t(big, Denom::Mel), out_t(big, Denom::Mel), out_t(big, Denom::Mel)], 0, vec![0x2f]);
+    let mut node = Some(rootn);
+    for a in [Action::Open, Action::Batch { label: "faucet of three coins of 2^120 MEL".into(), txs: vec![fund.clone()], expect_ok: true }, Action::Seal(None), Action::Open] {
+        node = match node.as_ref().map(|n| eng.step(n, &a)) {
+            Some(StepOut::Next(x)) => Some(x),
+            _ => None,
+        };
+    }
+    let open = match node {
+        Some(n) => n,
+        None => return,
+    };
+    let (c0, c1, c2) = (fund.output_coinid(0), fund.output_coinid(1), fund.output_coinid(2));
+    let cases = vec![
+        ("fee 2^120+10 balanced by two inputs of 2^120", tx_t(TxKind::Normal, vec![c0, c1], vec![out_t(big - 10, Denom::Mel)], big + 10, vec![]), false),
+        ("fee exactly 2^120", tx_t(TxKind::Normal, vec![c0, c1], vec![out_t(big, Denom::Mel)], big, vec![]), true),
+        ("output 2^120+1 balanced by two inputs", tx_t(TxKind::Normal, vec![c0, c1], vec![out_t(big + 1, Denom::Mel), out_t(big - 1, Denom::Mel)], 0, vec![]), false),
+        ("three inputs, fee 2^121", tx_t(TxKind::Normal, vec![c0, c1, c2], vec![out_t(big, Denom::Mel)], 2 * big, vec![]), false),
+    ];
+    for (name, tx, ok) in cases {
+        run.state();
+        match eng.step(&open, &Action::Batch { label: name.into(), txs: vec![tx], expect_ok: ok }) {
+            StepOut::Next(_) => run.outcome("over-limit-values:accepted"),
+            StepOut::Rejected => run.outcome("over-limit-values:rejected"),
+            StepOut::Pruned => run.outcome("over-limit-values:engine-reported"),
+        }
+    }
+}
+
 pub fn run(run: &Run) {
+    over_limit_values(run);
     for sc in scenarios(run.thorough()) {
         sample_alphabet(run, &sc);
         let st = run_scenario(run, &sc, 3_000_000);
